@@ -32,6 +32,8 @@ pub enum Act {
     LockRegister(usize, usize),
     LoadFlag(usize),
     FinishPoll(usize),
+    /// a bystander calls `handle()` and drops the handle without polling it
+    Handle,
 }
 
 impl Act {
@@ -43,6 +45,7 @@ impl Act {
             Act::LockRegister(p, w) => format!("lr:{}:{}", p, w),
             Act::LoadFlag(p) => format!("lf:{}", p),
             Act::FinishPoll(p) => format!("fp:{}", p),
+            Act::Handle => "h".to_string(),
         }
     }
     fn parse(text: &str) -> Option<Act> {
@@ -54,6 +57,7 @@ impl Act {
             "lr" => Act::LockRegister(parts[1].parse().ok()?, parts[2].parse().ok()?),
             "lf" => Act::LoadFlag(parts[1].parse().ok()?),
             "fp" => Act::FinishPoll(parts[1].parse().ok()?),
+            "h" => Act::Handle,
             _ => return None,
         })
     }
@@ -129,6 +133,7 @@ pub fn execute(status: CommandStatus, pollers: usize, polls: usize, wakers: &[Ve
                 grant_and_settle(&role).and_then(|_| grant_and_settle(&role)).and_then(|_| grant_and_settle(&role)).map(|_| ())
             }
             Act::LoadFlag(p) | Act::FinishPoll(p) => grant_and_settle(&format!("p{}", p)).map(|_| ()),
+            Act::Handle => { drop(ack.handle()); Ok(()) }
         };
         match outcome {
             Ok(()) => executed += 1,
@@ -149,6 +154,9 @@ pub fn execute(status: CommandStatus, pollers: usize, polls: usize, wakers: &[Ve
             "ack.wake" => if lock_owner.is_none() { enabled.push(Act::Wake) },
             _ => {}
         }
+        // a bystander's `handle()` (at most once per schedule, never while a poller owns the waker lock, only while the
+        // completion is still under way and somebody has polled already)
+        if lock_owner.is_none() && !schedule.contains(&Act::Handle) && at("completer") != "finished" && polls_started.iter().any(|n| *n > 0) { enabled.push(Act::Handle); }
         for p in 0..pollers {
             match at(&format!("p{}", p)) {
                 "poll.begin" => if lock_owner.is_none() { enabled.push(Act::LockRegister(p, wakers[p][polls_started[p].min(polls - 1)])) },
